@@ -135,6 +135,18 @@ def gen_records(args):
             o2 = _call(emd.cycles.is_good, ph, phase_edge=edge)
             if not isinstance(o2, str) and not isinstance(o, str) and bool(o2) != bool(all(o)):
                 recs.append({'kind': 'isgood', 'p': p, 'edge': E, 'out': [-97, -97, -97]})
+            if p[0] == E and n >= 2 and p[1] > E + 1:
+                # NEAR-misses of the edge criteria (a relative 1e-7 beyond the edge is beyond the edge: no tolerance): the
+                # start just above the edge behaves like the next lattice value, the end just below 2 pi - edge likewise
+                phn = val[p].copy()
+                phn[0] = edge * (1 + 1e-7)
+                o = _call(emd.cycles.is_good, phn, ret_all_checks=True, phase_edge=edge)
+                recs.append({'kind': 'isgood', 'p': [E + 1] + p[1:], 'edge': E, 'out': [-99, -99, -99] if isinstance(o, str) else [int(x) for x in o[:3]], 'near_miss': 'start'})
+            if p[-1] == M - E and n >= 2 and p[-2] < M - E - 1:
+                phn = val[p].copy()
+                phn[-1] = 2 * np.pi - edge * (1 + 1e-7)
+                o = _call(emd.cycles.is_good, phn, ret_all_checks=True, phase_edge=edge)
+                recs.append({'kind': 'isgood', 'p': p[:-1] + [M - E - 1], 'edge': E, 'out': [-99, -99, -99] if isinstance(o, str) else [int(x) for x in o[:3]], 'near_miss': 'end'})
             if p[0] == E:
                 # a segment that starts at phase EXACTLY zero (the lower end of the start criterion is inclusive)
                 p0 = [0] + p[1:]
